@@ -59,3 +59,21 @@ Print Assumptions C08_lit_sat_persist.
 Theorem C08_anon_side_condition_needed : forall sym_lt : sym -> sym -> Prop, let lhs := Lit NoSign (ASym (TFun "p" (TVar "X" :: nil) false)) in let rhs := Lit NoSign (ASym (TFun "p" (TVar "_" :: nil) false)) in let T0 := fun a : gatom => a = ("p", SNum 1 :: nil) in let s0 := fun x : string => if x =? "_" then SNum 2 else SNum 1 in same_pred lhs rhs = true /\ _superseeded nil lhs rhs = Ok true /\ no_anon rhs = false /\ lit_sat sym_lt nil T0 T0 s0 lhs /\ ~ lit_sat sym_lt nil T0 T0 s0 rhs.
 Proof. exact (@same_pred_anon_needed). Qed.
 Print Assumptions C08_anon_side_condition_needed.
+
+From NGO Require Import Syntax.Ast Sem.Sym Sem.Sat Meta.Cleanup Link.Ground.
+
+Theorem C08_ground_stable_iff : forall (sym_lt : sym -> sym -> Prop) (P : program), simple_prog P = true -> forall (I : list gatom) (T : Sym.interp), Sat.stable sym_lt P I T <-> stable gatom gF gsat (ground_prog sym_lt P I) T.
+Proof. exact (@ground_stable_iff). Qed.
+Print Assumptions C08_ground_stable_iff.
+
+Theorem C08_supported_nonground : forall (sym_lt : sym -> sym -> Prop) (P : program) (I : list gatom) (T : Sym.interp) (a : gatom), simple_prog P = true -> Sat.stable sym_lt P I T -> T a -> In a I \/ (exists (line : nat) (h : Ast.head) (b : list bodyelem) (s : subst), In (SRule line h b) P /\ head_derives s h a /\ body_sat sym_lt (gvars_rule h b) T T s b).
+Proof. exact (@supported_nonground). Qed.
+Print Assumptions C08_supported_nonground.
+
+Theorem C08_cleanup_nonground_del : forall (sym_lt : sym -> sym -> Prop) (P P' : program) (I : list gatom), simple_prog P = true -> simple_prog P' = true -> Forall2 (del_ok sym_lt P I) P P' -> forall T : Sym.interp, Sat.stable sym_lt P I T <-> Sat.stable sym_lt P' I T.
+Proof. exact (@cleanup_nonground_del). Qed.
+Print Assumptions C08_cleanup_nonground_del.
+
+Theorem C08_cleanup_nonground_fwd : forall (sym_lt : sym -> sym -> Prop) (P P' : program) (I : list gatom), simple_prog P = true -> simple_prog P' = true -> (forall r : rule gatom gF, ground_prog sym_lt P I r -> exists r' : rule gatom gF, ground_prog sym_lt P' I r' /\ shortened gatom gF GPos (ground_prog sym_lt P I) r r') -> (forall r' : rule gatom gF, ground_prog sym_lt P' I r' -> exists r : rule gatom gF, ground_prog sym_lt P I r /\ shortened gatom gF GPos (ground_prog sym_lt P I) r r') -> forall T : Sym.interp, Sat.stable sym_lt P I T -> Sat.stable sym_lt P' I T.
+Proof. exact (@cleanup_nonground_fwd). Qed.
+Print Assumptions C08_cleanup_nonground_fwd.
